@@ -5,7 +5,7 @@ from mc import strictjson
 import os
 import tempfile
 
-from mc import core, pelgen, decode, impl, clidrv
+from mc import subchunk, core, pelgen, decode, impl, clidrv
 from mc.core import ChunkResult
 
 PROPERTY = 'C06'
@@ -49,6 +49,8 @@ def plan(tier, seed):
         for t in TOKENS9:
             for t2 in TOKENS9:
                 ch.append({'k': 'pp5', 'first': t + t2, 'tokens': TOKENS9})
+    # the same under python -O (assertions stripped, __debug__ false)
+    ch += [dict(c, optimize=True) for c in [{'k': 'e2e_text'}, {'k': 'e2e_json'}, {'k': 'e2e_cli'}, {'k': 'numbers'}, {'k': 'pp_short'}]]
     return ch
 
 
@@ -397,6 +399,9 @@ def _do(res, case, s, every=1999):
 
 
 def run_chunk(chunk):
+    routed = subchunk.route(__name__, chunk)
+    if routed is not None:
+        return routed
     res = ChunkResult()
     k = chunk['k']
     if k == 'pp':
